@@ -2,6 +2,7 @@ import SpecKitV.Lemmas.SchedLtf
 import SpecKitV.Lemmas.SchedNewVec
 import SpecKitV.Props.C03
 import SpecKitV.Props.SchedGen
+import SpecKitV.Props.VecGen
 import SpecKitV.Props.Utils
 
 #print axioms ltfStep_rL
@@ -31,5 +32,10 @@ import SpecKitV.Props.Utils
 #print axioms gen_ltf_round_eq
 #print axioms gen_ltf_walk_eq_model
 #print axioms gen_new_walk_eq_model
+#print axioms Arr.memo_eq
+#print axioms Np.logspace_get
+#print axioms Np.searchsortedLeft_eq
+#print axioms gen_vec_walk_eq_model
+#print axioms gen_vec_walk_eq_plan
 #print axioms gen_round_half_up_eq_model
 #print axioms gen_round_half_up_eq_floor
